@@ -7,6 +7,7 @@ open Hawk.Arr
 structure St where
   a : Arr := Hawk.Arr.empty
   h : List Nat := []
+  p : List Item := []
 
 def parseOrc (s : String) : Oracle := s.toList.filterMap fun c => if c == 's' then some true else if c == 'f' then some false else none
 
@@ -28,6 +29,9 @@ def dumpSlots (l : List (Option Nat)) : String :=
     | none :: r => go r (gap + 1) acc
     | some v :: r => go r 0 (toString v :: (if gap > 0 then s!"_x{gap}" :: acc else acc))
   joinWith "," (go l 0 [])
+
+def dumpP (l : List Item) : String :=
+  s!"p=[{joinWith ", " (l.map fun x => s!"{x.1}:{x.2}")}] ord={decide (HeapOrd (keys l))} posok={decide (PosOk l)}"
 
 def dump (a : Arr) : String := s!"s={a.size} t={a.tally} c={a.capa} [{dumpSlots a.slots}]"
 
@@ -61,6 +65,20 @@ def step (s : St) (line : String) : St × String :=
     | none => (s, "bad-op")
   | ["hupd", i, v] => match i.toNat?, v.toNat? with
     | some i, some v => let (h, f) := updateheap s.h i v; ({ s with h := h }, s!"h={h} ord={decide (HeapOrd h)} f={match f with | some x => toString x | none => "-"}")
+    | _, _ => (s, "bad-op")
+  | ["spush", v, o] => match v.toNat? with
+    | some v => let r := pushstack s.a v (parseOrc o); ({ s with a := r.arr }, s!"r={showRet r.ret} e={showEvs r.evs} {dump r.arr}")
+    | none => (s, "bad-op")
+  | ["spop"] => let (a, _, e) := popstack s.a; ({ s with a := a }, s!"r=0 e={showEvs e} {dump a}")
+  | ["ppush", v] => match v.toNat? with
+    | some v => let p := pushheapP s.p v; ({ s with p := p }, dumpP p)
+    | none => (s, "bad-op")
+  | ["pdel", i] => match i.toNat? with
+    | some i => let (p, f) := deleteheapP s.p i; ({ s with p := p }, s!"{dumpP p} f={match f with | some x => toString x | none => "-"}")
+    | none => (s, "bad-op")
+  | ["ppop"] => let (p, f) := deleteheapP s.p 0; ({ s with p := p }, s!"{dumpP p} f={match f with | some x => toString x | none => "-"}")
+  | ["pupd", i, v] => match i.toNat?, v.toNat? with
+    | some i, some v => let (p, f) := updateheapP s.p i v; ({ s with p := p }, s!"{dumpP p} f={match f with | some x => toString x | none => "-"}")
     | _, _ => (s, "bad-op")
   | _ => (s, "bad-op")
 
